@@ -38,6 +38,20 @@ func normOnce(text, parent string) (canon string, errText string, parentRejected
 	return u.String(), "", false
 }
 
+// normOncePreparsed does what the sources do with a seed: the URL object is Parse()d (queue rows, --input-seeds) before
+// the preprocessor normalises it. Falls back to normOnce when the text does not parse (such rows never get that far).
+func normOncePreparsed(text string) (canon string, errText string) {
+	u := &models.URL{Raw: text}
+	if err := u.Parse(); err != nil {
+		c, e, _ := normOnce(text, "")
+		return c, e
+	}
+	if err := NormalizeURL(u, nil); err != nil {
+		return "", "ERR:" + err.Error()
+	}
+	return u.String(), ""
+}
+
 func genC09Hostile(t *rapid.T) c09Case {
 	c := c09Case{Text: verifgen.HostileURL(t)}
 	switch rapid.IntRange(0, 3).Draw(t, "parentkind") {
@@ -81,6 +95,10 @@ func propC09Determinism(t veriflib.TB, c c09Case) {
 	}
 	for i := 1; i < k; i++ {
 		got, gotErr, _ := normOnce(c.Text, c.Parent)
+		if c.Parent == "" && i%2 == 1 {
+			// a seed reaches the preprocessor already parsed once by its source: same text, same canonical form
+			got, gotErr = normOncePreparsed(c.Text)
+		}
 		if got != first || (gotErr == "") != (firstErr == "") {
 			veriflib.Fail(t, "C09", "C09/determinism", c, nil,
 				"same input normalised differently: evaluation 0 gave %q %s, evaluation %d gave %q %s", first, firstErr, i, got, gotErr)
